@@ -185,41 +185,19 @@ theorem resume_eq_stateful {σ : Type} (cfg : Sim.Cfg K)
       simpa [Sim.init, EventCore.init] using h4
     exact ⟨h4'.1, h4'.2⟩
 
-/-- a stateful scheduler that never looks at its state is a pure one: `resume_eq_stateful` specialises to
-    `resume_eq` (`runSt` of `lift sched` is `run` of `sched`, state untouched) — the two statements are
-    about the same loop -/
-theorem runSt_lift_eq_run {σ : Type} (cfg : Sim.Cfg K) (sched : View K → Except EventCore.Err (Schedule K))
-    (n : Nat) (st : σ) (s : State K) :
-    SimSortedRd.runSt cfg (SimSortedRd.lift sched) n st s = (run cfg sched n s, st) := by
-  induction n generalizing st s with
-  | zero => rfl
-  | succ n ih =>
-    unfold SimSortedRd.runSt Sim.run
-    split
-    · have h1 := SimSortedRd.bodySt_fst' cfg (SimSortedRd.lift (σ := σ) sched) st s
-      have hf : SimSortedRd.frozen (SimSortedRd.lift (σ := σ) sched) st = sched := by
-        funext v
-        unfold SimSortedRd.frozen SimSortedRd.lift
-        cases sched v <;> rfl
-      rw [hf] at h1
-      have h2 : (SimSortedRd.bodySt cfg (SimSortedRd.lift sched) st s).2 = st := by
-        rw [SimSortedRd.bodySt_eq]
-        rcases eventsStage cfg s with ⟨s1, _ | err⟩ <;> simp only []
-        unfold SimSortedRd.afterEventsSt SimSortedRd.schedStageSt SimSortedRd.lift
-        split
-        · split
-          · rfl
-          · cases sched (view cfg { s1 with core := markInvoked s1.core }) with
-            | error e => rfl
-            | ok sch =>
-              simp only
-              cases Pilots.updateSchedules (cfg.stations.map (·.id)) s1.pilots s1.core.iter
-                ((lastTs s1.core.pending).map Int.toNat) sch <;> rfl
-        · rfl
-      rcases hb : SimSortedRd.bodySt cfg (SimSortedRd.lift sched) st s with ⟨⟨s', _ | e⟩, st'⟩ <;>
-        rw [hb] at h1 h2 <;> simp only [] at h1 h2 <;> subst h2 <;> rw [← h1] <;> simp only []
-      exact ih st' s'
-    · rfl
+/-- … in particular for the scheduler the driver runs: the modelled sorted algorithm / round robin WITH its
+    `SimpleRampdown` estimator (`SimSortedRd.sortedSchedSt`; state = the estimator object with its per-session
+    bounds), from any estimator state `rd0` -/
+example [IntCast K] [Sorted.HasCeilNat K] (net : SimSorted.NetInfo K) (inf : K) (cfg : Sim.Cfg K)
+    (scfg : Sorted.Config K) (hS : SessionsOK cfg.core) (rd0 : Sorted.Rampdown K) (k n : Nat) :
+    let sched := SimSortedRd.sortedSchedSt net inf cfg scfg
+    let r1 := SimSortedRd.runSt cfg (SimSortedRd.failAtSt k sched) n rd0 (Sim.init cfg)
+    let r := SimSortedRd.runSt cfg sched n rd0 (Sim.init cfg)
+    r1 = r ∨
+    (r1.1.2 = some EventCore.Err.schedulerFailed ∧ r1.1.1.core.iter = k ∧
+     ObsEqR (SimSortedRd.runSt cfg sched (n - k) r1.2 r1.1.1).1 r.1 ∧
+     (SimSortedRd.runSt cfg sched (n - k) r1.2 r1.1.1).2 = r.2) :=
+  resume_eq_stateful cfg (SimSortedRd.sortedSchedSt net inf cfg scfg) hS rd0 k n
 
 /-! ### non-vacuity: one event of each kind pending at the crash; the crash fires, also in the LAST period (F7) -/
 section Examples
@@ -253,6 +231,23 @@ example : (run exCfg exSched 6 (Sim.init exCfg)).2 = none ∧
 example : (run exCfg exSched 6 (run exCfg (failAt 3 exSched) 6 (Sim.init exCfg)).1).1.core.iter = 4 ∧
     (run exCfg exSched 6 (run exCfg (failAt 3 exSched) 6 (Sim.init exCfg)).1).1.pilots.rows =
       (run exCfg exSched 6 (Sim.init exCfg)).1.pilots.rows := by decide +kernel
+-- a scheduler WITH hidden state (a call counter: S0's pilot is 8 + the number of earlier calls): the failure in
+-- period 1 fires with the counter at 1; resumed with THAT state the pilots are the uninterrupted run's, and the
+-- final counters agree (`resume_eq_stateful`); resumed with a FRESH scheduler (counter 0) they are not — the
+-- state of the surviving object is what the statement is about
+private def exSchedSt : Nat → View ℚ → Except EventCore.Err (Schedule ℚ × Nat) :=
+  fun c _ => .ok ([("S0", [(8 : ℚ) + (c : ℚ)]), ("S1", [16])], c + 1)
+example : (SimSortedRd.runSt exCfg (SimSortedRd.failAtSt 1 exSchedSt) 6 0 (Sim.init exCfg)).1.2 = some EventCore.Err.schedulerFailed ∧
+    (SimSortedRd.runSt exCfg (SimSortedRd.failAtSt 1 exSchedSt) 6 0 (Sim.init exCfg)).2 = 1 := by decide +kernel
+example : (SimSortedRd.runSt exCfg exSchedSt 6 1
+      (SimSortedRd.runSt exCfg (SimSortedRd.failAtSt 1 exSchedSt) 6 0 (Sim.init exCfg)).1.1).1.1.pilots.rows =
+    (SimSortedRd.runSt exCfg exSchedSt 6 0 (Sim.init exCfg)).1.1.pilots.rows ∧
+    (SimSortedRd.runSt exCfg exSchedSt 6 1
+      (SimSortedRd.runSt exCfg (SimSortedRd.failAtSt 1 exSchedSt) 6 0 (Sim.init exCfg)).1.1).2 =
+    (SimSortedRd.runSt exCfg exSchedSt 6 0 (Sim.init exCfg)).2 := by decide +kernel
+example : (SimSortedRd.runSt exCfg exSchedSt 6 0
+      (SimSortedRd.runSt exCfg (SimSortedRd.failAtSt 1 exSchedSt) 6 0 (Sim.init exCfg)).1.1).1.1.pilots.rows ≠
+    (SimSortedRd.runSt exCfg exSchedSt 6 0 (Sim.init exCfg)).1.1.pilots.rows := by decide +kernel
 end Examples
 
 end Resume
@@ -514,6 +509,44 @@ theorem crash_json_resume_eq {K : Type} [Add K] [Sub K] [Mul K] [Div K] [Neg K] 
   refine ⟨ctx, r1.1, h1, h2, h3, rfl, ?_⟩
   have hS : SessionsOK cfg.core := ⟨hv.ids_nodup, fun x hx => ⟨hv.arr_nonneg x hx, hv.arr_lt_dep x hx⟩⟩
   exact resume_eq cfg sched hS k n
+
+/-- `reachable_wf` for a scheduler with state: every state `runSt` can leave behind is well-formed -/
+theorem reachable_wf_stateful {K : Type} [Add K] [Sub K] [Mul K] [Div K] [Neg K] [LT K] [LE K]
+    [DecidableLT K] [DecidableLE K] [OfNat K 0] [OfNat K 1] [NatCast K] [HasExp K] {σ : Type}
+    (cfg : Sim.Cfg K) (sched : σ → View K → Except EventCore.Err (Schedule K × σ)) (hv : Valid cfg.core)
+    (n : Nat) (st0 : σ) :
+    RegistrySim.WF cfg (SimSortedRd.runSt cfg sched n st0 (Sim.init cfg)).1.1 ∧
+    RegistrySim.AllRef cfg (SimSortedRd.runSt cfg sched n st0 (Sim.init cfg)).1.1 := by
+  have h := RegistrySim.runSt_sinv cfg sched hv n 0 st0 (Sim.init cfg) (init_inv hv) (RegistrySim.init_sinv cfg)
+  exact ⟨h.wf hv.ids_nodup, h.allRef hv.ids_nodup⟩
+
+/-- THE PROPERTY for a scheduler WITH STATE, JSON half included: in a `Valid` scenario, for EVERY stateful
+    scheduler (e.g. a sorted algorithm with its `SimpleRampdown` estimator), initial scheduler state, crash period
+    `k`, fuel `n` and lawful scalar codec, the simulator state `r1.1.1` left by the interrupted run can be written
+    (`to_json`), loaded (`from_json`) and decoded, the decoded state IS `r1.1.1`, and either the failure never
+    fired, or resuming from the DECODED state with the scheduler state of the crash (`update_scheduler` with the
+    same algorithm object — the scheduler is not part of the document) yields the uninterrupted run's outcome
+    and final scheduler state. -/
+theorem crash_json_resume_eq_stateful {K : Type} [Add K] [Sub K] [Mul K] [Div K] [Neg K] [LT K] [LE K]
+    [DecidableLT K] [DecidableLE K] [OfNat K 0] [OfNat K 1] [NatCast K] [HasExp K] {σ : Type}
+    {sh : RegistrySim.Show K} {rd : RegistrySim.Read K} (hl : RegistrySim.Lawful sh rd)
+    (cfg : Sim.Cfg K) (sched : σ → View K → Except EventCore.Err (Schedule K × σ)) (hv : Valid cfg.core)
+    (st0 : σ) (k n : Nat) :
+    let r1 := SimSortedRd.runSt cfg (SimSortedRd.failAtSt k sched) n st0 (Sim.init cfg)
+    let r := SimSortedRd.runSt cfg sched n st0 (Sim.init cfg)
+    ∃ ctx s', dump (RegistrySim.encode sh cfg r1.1.1) RegistrySim.root = .ok ctx ∧
+      load ctx RegistrySim.root = .ok ctx ∧
+      RegistrySim.decode rd cfg (RegistrySim.ambOf r1.1.1) ctx.get = some s' ∧ s' = r1.1.1 ∧
+      (r1 = r ∨
+       (r1.1.2 = some EventCore.Err.schedulerFailed ∧ r1.1.1.core.iter = k ∧
+        ObsEqR (SimSortedRd.runSt cfg sched (n - k) r1.2 s').1 r.1 ∧
+        (SimSortedRd.runSt cfg sched (n - k) r1.2 s').2 = r.2)) := by
+  intro r1 r
+  obtain ⟨hwf, href⟩ := reachable_wf_stateful cfg (SimSortedRd.failAtSt k sched) hv n st0
+  obtain ⟨ctx, h1, h2, h3, _⟩ := roundtrip_resume_eq hl cfg (fun _ => .error EventCore.Err.schedulerFailed) r1.1.1 hwf href
+  refine ⟨ctx, r1.1.1, h1, h2, h3, rfl, ?_⟩
+  have hS : SessionsOK cfg.core := ⟨hv.ids_nodup, fun x hx => ⟨hv.arr_nonneg x hx, hv.arr_lt_dep x hx⟩⟩
+  exact resume_eq_stateful cfg sched hS st0 k n
 
 /-! #### non-vacuity: the crash state of `exCfg` above (plug-in, unplug and recompute events pending, one station
     occupied, one EV referenced only by its pending PluginEvent) -/
